@@ -1524,6 +1524,11 @@ impl ProtocolState {
             return None;
         }
 
+        // an operation that has been dequeued but not yet fully encoded still needs servicing
+        if self.current_operation.is_some() {
+            return Some(self.current_time);
+        }
+
         if !self.high_priority_operation_queue.is_empty() {
             return Some(self.current_time);
         }
